@@ -70,7 +70,8 @@ def run(ctx):
                         'control flow inside one scenario is concrete (DESIGN 2.5): the solver decides over scenario numbers in a chunk and payload tokens']
     chunk = 4
     jobs = []
-    plan = [(mods['c01'], e, T, MC) for e in ENTRIES]
+    quick_entries = ['c01_alt2', 'c01_or2', 'c01_assert', 'c01_subx', 'c01_capture', 'c01_alt_in_alt']
+    plan = [(mods['c01'], e, T, MC) for e in (quick_entries if ctx.tier == 'quick' else ENTRIES)]
     if 'c01t3' in mods:
         plan += [(mods['c01t3'], e, 3, 1) for e in ('c01_alt_in_alt', 'c01_alt_in_or', 'c01_alt2')]
     nscen = 0
